@@ -506,12 +506,14 @@ def run(ctx: Ctx) -> None:
     SH_6 = '{"fork", "call", "ufork", "merge1", "rb"}'
     if ctx.quick:
         main = [("5 ops, all shapes", handles_cfg("Spec", one, K1, UK, C1, 3, 5, ALL_DEV, SH_ALL, inv)),
-                ("6 ops, forks/user forks/calls/merges/rollbacks, depth 2",
-                 handles_cfg("Spec", one, K1, UK, C1, 2, 6, ALL_DEV, SH_6, inv)),
+                ("6 ops, forks/calls/merges/rollbacks",
+                 handles_cfg("Spec", one, K1, UK, C1, 3, 6, ALL_DEV, '{"fork", "call", "merge1", "rb"}', inv)),
                 ("4 ops, two names, chained user forks, rollback of unrecorded states",
                  handles_cfg("Spec", two, K1, UK, C1, 3, 4, ALL_DEV, SH_MID, inv))]
     else:
-        main = [("6 ops, all shapes", handles_cfg("Spec", one, K1, UK, C2, 3, 6, ALL_DEV, SH_ALL, inv)),
+        main = [("6 ops, forks/user forks/calls/merges/rollbacks, depth 2",
+                 handles_cfg("Spec", one, K1, UK, C1, 2, 6, ALL_DEV, SH_6, inv)),
+                ("6 ops, all shapes", handles_cfg("Spec", one, K1, UK, C2, 3, 6, ALL_DEV, SH_ALL, inv)),
                 ("6 ops, depth 4, no user forks",
                  handles_cfg("Spec", one, K1, UK, C2, 4, 6, ALL_DEV, '{"fork", "call", "merge1", "merge2", "rb"}', inv)),
                 ("5 ops, two names, wide shapes", handles_cfg("Spec", two, K1, UK, C1, 3, 5, ALL_DEV, SH_WIDE, inv))]
@@ -532,7 +534,7 @@ def run(ctx: Ctx) -> None:
     # (c) workflow level: every edit/revert history
     winv = ("VIEW WView\nINVARIANT AgreeF\nINVARIANT NeverReplayInvalidF\nINVARIANT AsBuiltUnlessFired\n"
             "INVARIANT OnlyForkEdge\nPROPERTY NoFastRevertF\n")
-    for stages, nruns in ctx.pick([(2, 4), (3, 2)], [(3, 4)]):
+    for stages, nruns in ctx.pick([(2, 4)], [(3, 4)]):
         wres = expect_clean(run_tlc("seq/HandlesWf.tla", wf_cfg("WSpec", ALL_DEV, stages, nruns, winv),
                                     ctx.scratch, workers=ctx.pick(8, "auto"), timeout=1500),
                             f"HandlesWf invariants ({stages} stages, {nruns} runs)")
@@ -564,7 +566,7 @@ def run(ctx: Ctx) -> None:
     ctx.sample({"source": "tlc-exhaustive", "behaviour": [s["op"] for s in behs[len(behs) // 2]]})
 
     # ---- 3. spec -> code: long simulated behaviours ---------------------------------------------
-    nsim = ctx.pick(150, 2500)
+    nsim = ctx.pick(120, 2500)
     depth = ctx.pick(6, 8)
     scfg = handles_cfg("GSpec", two, K1, UK, C2, 4, depth, ALL_DEV, ctx.pick(SH_MID, SH_WIDE), "")
     sres = run_tlc("seq/Handles_Gen.tla", scfg, ctx.scratch, workers=1, simulate=f"num={nsim}",
@@ -583,8 +585,20 @@ def run(ctx: Ctx) -> None:
     ctx.note("asbuilt_drift", stats.get("ok-drift", 0))
 
     # ---- 4. code -> spec: random executions validated by TLC -------------------------------------
-    ntr = ctx.pick(150, 3000)
+    ntr = ctx.pick(120, 3000)
     traces = [gen_random_trace(ctx.rng, backend, f"r{n}", ctx.rng.randint(6, 16)) for n in range(ntr)]
+    # the minimal histories of the two deviations (TLC's counterexamples of the control runs), executed on
+    # the real backend and judged by TLC like every other trace
+    A, B = ["w"], ["w", ["f", "1"]]
+    C = B + [["c", "c1"]]
+    E = C + [["f", "1"]]
+    X = A + [["f", "a"]]
+    adv = lambda ps, c, fresh=(): {"n": "adv", "ps": ps, "c": c, "fresh": list(fresh)}  # noqa: E731
+    rb = lambda h: {"n": "rb", "ps": [], "c": h, "fresh": []}  # noqa: E731
+    for n, ops in enumerate([[adv([X], X + [["f", "a"]], [X]), rb(A)],
+                             [adv([A], B), adv([B], C), adv([C], E), rb(A), adv([C], E), rb(A)]]):
+        w = World(backend, f"wit{n}")
+        traces.append([{"op": op, "obs": sorted(w.apply(op), key=tkey)} for op in ops])
     # negative control: drop one state from one observed valid set; TLC must flag exactly that step
     src = next(t for t in traces if len(t) >= 5 and len(t[3]["obs"]) >= 2)
     bad = copy.deepcopy(src)
@@ -609,8 +623,9 @@ def run(ctx: Ctx) -> None:
 
     # ---- 5. workflow histories through a real Scheduler -------------------------------------------
     wbehs = []
-    for stages, sim in ctx.pick([(2, None), (3, "num=40")], [(3, None)]):
-        wg = run_tlc("seq/HandlesWf_Gen.tla", wf_cfg("WGSpec", ALL_DEV, stages, 3, ""), ctx.scratch,
+    for stages, sim in ctx.pick([(2, None), (3, "num=30")], [(3, None)]):
+        wg = run_tlc("seq/HandlesWf_Gen.tla", wf_cfg("WGSpec", ALL_DEV, stages, 3, winv.split("VIEW WView\n")[1]),
+                     ctx.scratch,
                      workers=1 if sim else 4, simulate=sim, depth=6 if sim else None,
                      seed=(ctx.seed + 2) if sim else None, timeout=900)
         ctx.require(wg.error is None and not wg.violated, f"HandlesWf_Gen failed: {wg.error} {wg.violated}")
@@ -622,8 +637,8 @@ def run(ctx: Ctx) -> None:
     plain_h = [w for w in wbehs if not any(r["exA"] != r["exF"] for r in w["runs"])]
     ctx.rng.shuffle(dev_h)
     ctx.rng.shuffle(plain_h)
-    three = [w for w in wbehs if len(w["kinds"]) == 3][: ctx.pick(20, 0)]
-    chosen = dev_h[: ctx.pick(8, 150)] + plain_h[: ctx.pick(12, 450)] + three
+    three = [w for w in wbehs if len(w["kinds"]) == 3][: ctx.pick(10, 0)]
+    chosen = dev_h[: ctx.pick(6, 150)] + plain_h[: ctx.pick(8, 450)] + [w for w in three if w not in dev_h[:6]]
     sched = new_scheduler()
     wstats: dict = {}
     for n, wb in enumerate(chosen):
